@@ -28,8 +28,11 @@ type refUniform struct {
 	used bool
 }
 
-// sample returns the next polynomial at `level` over moduli mod.
-func (u *refUniform) sample(mod []uint64, level int) [][]uint64 {
+// sample returns the next polynomial at `level` over moduli mod (ring degree N).
+func (u *refUniform) sample(mod []uint64, level int) [][]uint64 { return u.sampleN(mod, level, N) }
+
+// sampleN is sample for a ring of degree n: the refill buffer stays 1024 bytes whatever the ring degree.
+func (u *refUniform) sampleN(mod []uint64, level int, N int) [][]uint64 {
 	if !u.used || u.ptr == len(u.buf) {
 		u.src.Read(u.buf[:])
 		u.ptr = 0
